@@ -486,7 +486,7 @@ def config_writes(fn):
     return out
 
 
-def r5_sav_keys(ctx, rule):
+def r5_sav_keys(ctx, rule, sections=None, floor=10):
     readers = [LOAD_SAVE, MAIN, SR + 'load', PQ + '__init__', CS + 'run']
     writers = ['pcfg_guesser.py::create_save_config', MAIN, SR + 'update_save_config', PQ + 'update_save_config',
                CS + '_save_session']
@@ -515,6 +515,8 @@ def r5_sav_keys(ctx, rule):
         for s, o, getter, node in config_reads(ctx.fn(r)):
             if s is None or o is None:
                 continue
+            if sections is not None and s not in sections:
+                continue
             nreads += 1
             if (s, o) not in written:
                 bad = True
@@ -528,7 +530,7 @@ def r5_sav_keys(ctx, rule):
                 ctx.bad(rule, r, '[%s] %s written as str(%s) but read with %s()' % (s, o, wt, getter),
                         'the option does not round-trip: a str(bool) read back with get() is the non-empty string '
                         "'False'/'True', which is always true", {'writer': written[(s, o)][0]}, node)
-    if ctx.floor(rule, 'pcfg_guesser.py', nreads, 10, 'constant-key reads of the save config') and not bad:
+    if ctx.floor(rule, 'pcfg_guesser.py', nreads, floor, 'constant-key reads of the save config') and not bad:
         ctx.ok(rule, 'pcfg_guesser.py', 'all %d (section, option) reads of the .sav are written by the save path with '
                'round-tripping types' % nreads, {'written': sorted('%s.%s' % k for k in written)})
 
